@@ -120,11 +120,15 @@ impl FeoxStore {
         let extent = source.acquire_extent().ok_or(FeoxError::StaleExtent)?;
         #[cfg(feoxdb_verif)]
         crate::verif::emit("pin", &source.key, extent.verif_id(), source.timestamp, 0);
+        #[cfg(feoxdb_verif)]
+        crate::verif::sched("rd_pinned");
         let sector = source.sector.load(Ordering::Acquire);
         if self.memory_only || sector == 0 {
             return Err(FeoxError::StaleExtent);
         }
         crate::test_hooks::pause_at(crate::test_hooks::AFTER_SECTOR_LOAD);
+        #[cfg(feoxdb_verif)]
+        crate::verif::sched("rd_sector");
 
         // Get the appropriate format handler
         let format = get_format_ref(self.format_version);
@@ -320,6 +324,8 @@ impl FeoxStore {
 
 impl Drop for FeoxStore {
     fn drop(&mut self) {
+        #[cfg(feoxdb_verif)]
+        crate::verif::emit("drop_begin", &[], 0, 0, 0);
         // Stop TTL sweeper if running
         if let Some(mut sweeper) = self.ttl_sweeper.write().take() {
             sweeper.stop();
@@ -349,6 +355,8 @@ impl Drop for FeoxStore {
             }
         }
 
+        #[cfg(feoxdb_verif)]
+        crate::verif::emit("drop_end", &[], 0, 0, 0);
         // Now it's safe to shutdown disk I/O since workers have exited
         if let Some(ref disk_io) = self.disk_io {
             disk_io.write().shutdown();
